@@ -13,6 +13,7 @@ def main():
     repo = opts.get('--repo', '/repo')
     g = importlib.import_module(f'contracts.{args[0]}').GROUP
     w = g.world()
+    w['__repo__'] = repo
     from .check import make_registry
     registry = make_registry(g)
     eng = Engine(repo, w, registry, bases=w.get('__bases__', {}))
